@@ -751,7 +751,15 @@ def gen_stmt(rng, scope, cfg, loopvar=None, loopkind=None):
             slot = rng.random()
             ve = ("var", loopvar)
             use = rng.choice([ve, ("mul", ("int", "2"), ve), ("add", ve, ("float", "0.5"))])
-            if slot < 0.5 or not args["kw"]:
+            if slot < 0.12:
+                # the loop variable ONLY inside a list-valued keyword argument (seeded C02/k: a per-loop argument
+                # cache whose "mentions the loop variable" test looked at scalar keyword values only)
+                other = [("expr", rng.choice([("int", str(rng.randrange(0, 9))), ("float", "0.25")]))
+                         for _ in range(rng.randrange(0, 3))]
+                lst = other + [("expr", use)]
+                rng.shuffle(lst)
+                args["kw"].append((rng.choice(KW_NAMES), ("list", lst)))
+            elif slot < 0.5 or not args["kw"]:
                 args["pos"].append(("expr", use))
             else:
                 args["kw"].append((rng.choice(KW_NAMES), ("expr", use)))
